@@ -319,6 +319,9 @@ func (r *Run) Finish() int {
 	if r.Samples == nil {
 		cov["samples"] = []any{}
 	}
+	if r.Assumptions == nil {
+		r.Assumptions = []string{}
+	}
 	doc := map[string]any{
 		"property_id": r.Property,
 		"tier":        r.Tier,
